@@ -124,6 +124,8 @@ type Enc struct {
 	lateBlocks map[*ssa.BasicBlock]bool
 	ghostUsed  map[int]bool
 	privateCells []*ssa.Alloc
+	privateFVs []*ssa.FreeVar
+	dynType    map[string]types.Type
 }
 
 type lvalue struct {
@@ -144,7 +146,7 @@ func NewEnc(w *World, fn *ssa.Function, key string, spec *FuncSpec) *Enc {
 		cellName: map[string][]*ssa.Alloc{}, regs: map[ssa.Value]Val{}, addrs: map[ssa.Value]lvalue{}, used: map[string]bool{},
 		usedTrusted: map[string]bool{}, loops: map[*ssa.BasicBlock]*loopInfo{}, inEdges: map[*ssa.BasicBlock][]edge{},
 		counters: map[string]int{}, iterStr: map[ssa.Value]Val{}, closures: map[ssa.Value]*ssa.MakeClosure{},
-		tupleOf: map[ssa.Value][]Val{}, callOrd: map[string]int{}, freeVars: map[*ssa.FreeVar]lvalue{}, paramVals: map[string]Val{}, usedLemmas: map[string]bool{}, implUsed: map[string]types.Type{}, iterMap: map[ssa.Value]Val{}, closureOf: map[string]*ssa.MakeClosure{}, lateBlocks: map[*ssa.BasicBlock]bool{}, ghostUsed: map[int]bool{}}
+		tupleOf: map[ssa.Value][]Val{}, callOrd: map[string]int{}, freeVars: map[*ssa.FreeVar]lvalue{}, paramVals: map[string]Val{}, usedLemmas: map[string]bool{}, implUsed: map[string]types.Type{}, iterMap: map[ssa.Value]Val{}, closureOf: map[string]*ssa.MakeClosure{}, lateBlocks: map[*ssa.BasicBlock]bool{}, ghostUsed: map[int]bool{}, dynType: map[string]types.Type{}}
 }
 
 func (e *Enc) freshName(prefix string) string {
@@ -353,6 +355,23 @@ func (e *Enc) havocAll(st *State, g string) {
 		old Val
 	}
 	var keep []saved
+	type savedFV struct {
+		fv  *ssa.FreeVar
+		old Val
+	}
+	var keepFV []savedFV
+	for _, fv := range e.privateFVs {
+		t := fv.Type().Underlying().(*types.Pointer).Elem()
+		if _, isSt := t.Underlying().(*types.Struct); !isSt {
+			keepFV = append(keepFV, savedFV{fv, e.loadPtr(st, t, e.regs[fv].C[0])})
+		}
+	}
+	defer func() {
+		for _, s := range keepFV {
+			t := s.fv.Type().Underlying().(*types.Pointer).Elem()
+			e.assume(g, valEq(e.loadPtr(st, t, e.regs[s.fv].C[0]), s.old))
+		}
+	}()
 	for _, a := range e.privateCells {
 		if r, ok := e.regs[a]; ok {
 			t := a.Type().Underlying().(*types.Pointer).Elem()
@@ -496,7 +515,9 @@ func (e *Enc) allocRef(st *State, g string, what string) string {
 
 func (e *Enc) mapCard(st *State, m Val) string {
 	h := e.heapKey(st, "map.card", "(Array Int Int)")
-	return app("select", h, m.C[0])
+	c := app("select", h, m.C[0])
+	e.def(app("<=", "0", c)) // a cardinality, in every heap version
+	return ite(eq(m.C[0], "0"), "0", c)
 }
 
 func (e *Enc) specialPred(c *Ctx, name string, x interface{}) Val {
@@ -705,6 +726,21 @@ func (e *Enc) Encode() {
 		e.assume("true", e.typeFacts(v))
 		e.assume("true", not(eq(v.C[0], "0")))
 	}
+	if p := fn.Parent(); p != nil {
+		// captured variables whose cell is private to the parent and its closures, and that this
+		// closure does not assign, keep their value across calls to other code
+		for _, b := range p.Blocks {
+			for _, ins := range b.Instrs {
+				if mc, ok := ins.(*ssa.MakeClosure); ok && mc.Fn == ssa.Value(fn) {
+					for i, bnd := range mc.Bindings {
+						if a, ok := bnd.(*ssa.Alloc); ok && isPrivateCell(a) && !closureWrites(fn, fn.FreeVars[i]) {
+							e.privateFVs = append(e.privateFVs, fn.FreeVars[i])
+						}
+					}
+				}
+			}
+		}
+	}
 	if e.recovers(fn) {
 		rv := e.freshVal("recovered", types.NewInterfaceType(nil, nil))
 		e.assume("true", e.typeFacts(rv))
@@ -727,8 +763,10 @@ func (e *Enc) Encode() {
 	for k, v := range st.m {
 		e.entrySt.m[k] = v
 	}
+	eb := &blockState{e: e, b: fn.Blocks[0], g: "true", st: st}
+	eb.ghostAt("entry", fn.Blocks[0].Instrs[0], nil)
 	order := e.topo()
-	e.inEdges[fn.Blocks[0]] = []edge{{guard: "true", st: st}}
+	e.inEdges[fn.Blocks[0]] = []edge{{guard: eb.g, st: st}}
 	for _, b := range order {
 		e.block(b)
 	}
